@@ -151,8 +151,8 @@ class Extractor:
     # ------------------------------------------------------------------------------------
     def parse_block(self, block):
         """parse the directive block of an EXTRACT."""
-        d = dict(ret=None, safety=None, spec=None, loops={}, inserts=[], substs=[], bodyonly=False,
-                 frm=None, to=None, optional=False, rename=None, pub=False)
+        d = dict(ret=None, safety=None, spec=None, loops={}, loopstart={}, loopend={}, inserts=[], substs=[], bodyonly=False,
+                 frm=None, to=None, optional=False, rename=None, pub=False, r4=False, replaces=[])
         i = 0
 
         def grab(endmarks):
@@ -185,6 +185,8 @@ class Extractor:
                 d["optional"] = True
             elif k == "PUB":
                 d["pub"] = True
+            elif k == "R4":
+                d["r4"] = True
             elif k == "BODYONLY":
                 d["bodyonly"] = True
             elif k == "RENAME":
@@ -196,6 +198,14 @@ class Extractor:
                 n = int(w[1])
                 txt, _ = grab(["ENDLOOP"])
                 d["loops"][n] = txt
+            elif k == "LOOPSTART":
+                n = int(w[1])
+                txt, _ = grab(["ENDLOOPSTART"])
+                d["loopstart"][n] = txt
+            elif k == "LOOPEND":
+                n = int(w[1])
+                txt, _ = grab(["ENDLOOPEND"])
+                d["loopend"][n] = txt
             elif k.startswith("BEFORE") or k.startswith("AFTER"):
                 where = "before" if k.startswith("BEFORE") else "after"
                 m = re.search(r"#(\d+)", k)
@@ -211,6 +221,12 @@ class Extractor:
                 old, _ = grab(["WITH"])
                 new, _ = grab(["ENDSUBST"])
                 d["substs"].append((m.group(1), int(m.group(2)) if m.group(2) else None, bool(m.group(3)), old, new))
+            elif k == "REPLACE":
+                rule = w[1]
+                frm, _ = grab(["UPTO"])
+                to, _ = grab(["WITH"])
+                new, _ = grab(["ENDREPLACE"])
+                d["replaces"].append((rule, frm, to, new))
             elif k == "FROM":
                 d["frm"], _ = grab(["ENDFROM"])
             elif k == "TO":
@@ -246,7 +262,7 @@ class Extractor:
                 s_, a_ = src.item_start(k, lo)
                 it = dict(kw=k, start=s_, attr_start=a_, end=c, body_open=o, body_close=c)
             else:
-                it = src.find_item(kind, name, lo, hi)
+                it = src.find_item(kind, name, lo, hi, cfg_eval=eval_cfg)
         except LostAnchor:
             if d["optional"]:
                 return "", None, name
@@ -281,8 +297,34 @@ class Extractor:
                 inner = [x.text for x in toks[k + 2:e]]
                 if inner and inner[0] == "cfg":
                     val = eval_cfg(inner[2:-1])
-                    if val is not True:
-                        raise UnitError("%s: cfg attribute inside %s %s not active/unknown: %s" % (rel, kind, name, " ".join(inner)))
+                    if val is None:
+                        raise UnitError("%s: cfg attribute inside %s %s unknown: %s" % (rel, kind, name, " ".join(inner)))
+                    if val is False:
+                        # R1: drop the attribute together with the field / statement / block it guards
+                        q = e + 1
+                        # skip further attributes / docs
+                        while toks[q].kind == "doc" or (toks[q].text == "#" and toks[q + 1].text == "["):
+                            q = q + 1 if toks[q].kind == "doc" else src.tbl[q + 1] + 1
+                        endq = q
+                        while endq <= b:
+                            tt = toks[endq]
+                            if tt.kind == "punct" and tt.text in "([{":
+                                endq = src.tbl[endq]
+                                if tt.text == "{" :
+                                    # a block item/statement ends at its closing brace unless followed by ',' / ';'
+                                    if toks[endq + 1].text in (",", ";"):
+                                        endq += 1
+                                    break
+                            elif tt.kind == "punct" and tt.text in ",;":
+                                break
+                            elif tt.kind == "punct" and tt.text in ")]}":
+                                endq -= 1
+                                break
+                            endq += 1
+                        pieces.append(Piece(t.start - base, toks[endq].end - base, "", "strip", old=src.text[t.start:toks[endq].end], rule="R1"))
+                        bump("R1")
+                        k = endq + 1
+                        continue
                 pieces.append(Piece(t.start - base, toks[e].end - base, "", "strip", old=src.text[t.start:toks[e].end], rule="R1"))
                 bump("R1")
                 k = e
@@ -328,6 +370,22 @@ class Extractor:
                     line = src.text.count("\n", 0, toks[h].start) + 1
                     self.lifts.append("%s:%d %s `%s` -> `%s`" % (rel, line, rule, " ".join(want)[:100], " ".join(new.split())[:80]))
 
+        # range replacement (R7 block lift out of a function: the block becomes a call)
+        for (rule, frm, to, newtxt) in d["replaces"]:
+            wf, wt = token_texts(frm), token_texts(to)
+            hf = find_seq(toks, wf, a, b + 1)
+            if len(hf) != 1:
+                raise LostAnchor("%s: REPLACE start anchor matches %d times in %s %s" % (rel, len(hf), kind, name))
+            ht = [h for h in find_seq(toks, wt, hf[0], b + 1)]
+            if not ht:
+                raise LostAnchor("%s: REPLACE end anchor not found in %s %s" % (rel, kind, name))
+            s0, s1 = toks[hf[0]].start - base, toks[ht[0] + len(wt) - 1].end - base
+            pieces.append(Piece(s0, s1, newtxt.strip("\n"), "subst", old=orig[s0:s1], rule=rule))
+            bump(rule)
+            l1 = src.text.count("\n", 0, toks[hf[0]].start) + 1
+            l2 = src.text.count("\n", 0, toks[ht[0]].start) + 1
+            self.lifts.append("%s:%d-%d %s block replaced by `%s`" % (rel, l1, l2, rule, " ".join(newtxt.split())[:80]))
+
         if kind == "fn":
             if body_lo is None:
                 raise UnitError("fn %s has no body" % name)
@@ -362,7 +420,7 @@ class Extractor:
                 pieces.append(Piece(toks[body_lo].start - base, toks[body_lo].start - base, "\n" + d["spec"] + "\n", "ins"))
                 bump("R8")
             # loops
-            if d["loops"]:
+            if d["loops"] or d["loopstart"] or d["loopend"]:
                 loop_idx = []
                 k = body_lo + 1
                 while k < body_hi:
@@ -379,12 +437,18 @@ class Extractor:
                             j += 1
                         loop_idx.append(j)
                     k += 1
-                for n, txt in d["loops"].items():
+                for n in list(d["loops"]) + list(d["loopstart"]) + list(d["loopend"]):
                     if n > len(loop_idx):
                         raise LostAnchor("%s: fn %s has only %d loops, contract wants loop %d" % (rel, name, len(loop_idx), n))
+                for n, txt in d["loops"].items():
                     o = toks[loop_idx[n - 1]].start - base
                     pieces.append(Piece(o, o, "\n" + txt + "\n", "ins"))
                     bump("R8")
+                for n, txt in d["loopstart"].items():
+                    o = toks[loop_idx[n - 1]].end - base
+                    pieces.append(Piece(o, o, "\n" + txt + "\n", "ins"))
+                    bump("R8")
+                self._loop_idx = loop_idx
             for (where, occ, anchor, txt) in d["inserts"]:
                 want = token_texts(anchor)
                 hits = find_seq(toks, want, body_lo, body_hi + 1)
@@ -395,6 +459,39 @@ class Extractor:
                     o = toks[h].start - base
                 else:
                     o = toks[h + len(want) - 1].end - base
+                pieces.append(Piece(o, o, "\n" + txt + "\n", "ins"))
+                bump("R8")
+
+        # R4: guard-`continue` elimination:  if c { continue; } rest  ->  if c {} else { rest }
+        if d["r4"]:
+            n4 = 0
+            for k in range(body_lo, body_hi):
+                if toks[k].kind == "id" and toks[k].text == "continue":
+                    if not (toks[k - 1].text == "{" and toks[k + 1].text == ";" and toks[k + 2].text == "}" and toks[k + 3].text != "else"):
+                        raise UnitError("R4: `continue` at %s is not a guard of the form `if c { continue; }`" % name)
+                    # enclosing block of the if statement
+                    depth, q = 0, k - 2
+                    while q > body_lo:
+                        if toks[q].kind == "punct" and toks[q].text in ")]}":
+                            q = src.tbl[q]
+                        elif toks[q].kind == "punct" and toks[q].text == "{":
+                            break
+                        q -= 1
+                    encl_close = src.tbl[q]
+                    s0, s1 = toks[k].start - base, toks[k + 1].end - base
+                    pieces.append(Piece(s0, s1, "", "subst", old=orig[s0:s1], rule="R4"))
+                    o = toks[k + 2].end - base
+                    pieces.append(Piece(o, o, " else {", "ins"))
+                    o2 = toks[encl_close].start - base
+                    pieces.append(Piece(o2, o2, "}", "ins"))
+                    bump("R4")
+                    n4 += 1
+            if n4 == 0:
+                raise LostAnchor("R4 requested but fn %s has no `continue`" % name)
+
+        if kind == "fn" and d["loopend"]:
+            for n, txt in d["loopend"].items():
+                o = toks[src.tbl[self._loop_idx[n - 1]]].start - base
                 pieces.append(Piece(o, o, "\n" + txt + "\n", "ins"))
                 bump("R8")
 
